@@ -10,7 +10,7 @@ from . import common as c
 
 SUPPORT = ["Ast/Linked.v", "Ast/Tree.v", "Ast/Node.v", "Ast/Refute.v", "Ast/LinkedProofs.v", "Ast/IndexProofs.v",
            "Ast/NodeRefine.v", "Ast/ArrayRefine.v", "Ast/RootRefine.v", "Ast/ObjectRefine.v", "Ast/ObjectOps.v",
-           "Ast/ObjectSet.v", "Ast/RootRefine2.v"]
+           "Ast/ObjectSet.v", "Ast/RootRefine2.v", "Ast/ArrayOps.v", "Ast/ArraySet.v", "Ast/RootRefine3.v"]
 
 CLAIM = {
     "gens": ["AstConsts"],
@@ -19,9 +19,9 @@ CLAIM = {
             "soft-deleted cells with logical indexing, the key index with its linear fallback) and a plain ordered tree with "
             "the obvious operations. Theorems: the chunked storage refines a plain list for every size and operation sequence; "
             "the key index answers Get exactly like a first-occurrence search when keys are not duplicated; SortKeys is a stable "
-            "sorted permutation; three clauses of the property are REFUTED by concrete histories (Len on a lazy node, key \"\" vs a soft-deleted pair, "
-            "out-of-range Move with holes); two former refutations (duplicate key + index, stale index entry -> nil dereference) were "
-            "repaired in /repo and are regression theorems. "
+            "sorted permutation; one clause of the property is REFUTED by a concrete history (Len on a lazy node); four former refutations (duplicate key + "
+            "index, stale index entry -> nil dereference, key \"\" vs a soft-deleted pair, out-of-range Move with holes) were repaired "
+            "in /repo and are regression theorems. "
             "Tie: random operation histories on the real ast.Node, the extracted model must reproduce every return value and the "
             "complete internal representation (through a read-only hook) after every step; the extracted plain tree is the oracle.",
     "note": "Trusted: Coq kernel + vm_compute (witnesses), extraction, the OCaml driver and the Go harness, the read-only hook "
@@ -32,9 +32,9 @@ CLAIM = {
 
 WITNESS = {  # corpus witnesses of Refute.v -> the finding they demonstrate (None: must agree with the tree)
     "dupkeys_index": None, "popdup_index": None, "dupkeys_lazy": None,          # repaired in /repo (ffe8bf0): regression cases
-    "len_lazy": "KF-C15-len-lazy", "emptykey_unset": "KF-C15-emptykey-unset",
+    "len_lazy": "KF-C15-len-lazy", "emptykey_unset": None,                        # repaired (6c9aabd): regression case
     "stale_index_panic": None,                                                   # repaired in /repo (ecd1239): regression case
-    "move_oor_holes": "KF-C15-move-oor-holes",
+    "move_oor_holes": None,                                                      # repaired (d346b1d): regression case
 }
 
 
@@ -272,9 +272,10 @@ def run(ctx):
         "documents are valid JSON",
         "caching.StrHash is a parameter of the model; runs are collision-free, the theorems about the index assume the hash injective "
         "on the keys present",
-        "node_refines_tree is proved only for sequences of root-level Look/Load/LoadAll/Add (C15_node_refines_tree_partial) plus the layer "
-        "theorems (storage, index, representation changes, lazy array indexing); all other operations and deeper paths are covered by "
-        "the three-way replay only",
+        "node_refines_tree is proved for sequences of ROOT-level operations in three fragments: Look/Load/Add (any document), "
+        "+ Set/Unset with non-empty keys (any document, collision-free hash), + SetByIndex/UnsetByIndex/Pop (array-rooted documents); "
+        "Len, Move, SortKeys, ForEach, MarshalJSON, Interface, positional operations on objects and every operation below the root "
+        "are covered by the three-way replay only",
         "V_ANY nodes, Cap(), IndexOrGet, the *UseNode / Map / Array converters and concurrent use are not modelled",
     ]
     p_ok = c.standard_P(ctx, CLAIM["gens"], SUPPORT)
